@@ -42,6 +42,136 @@ let split_on c s = String.split_on_char c s
 
 let time_obs ((sec, ns), off) = Printf.sprintf "ok %s %s %s" (string_of_z sec) (string_of_z ns) (string_of_z off)
 
+(* ---- s-expressions shared with the Go harness (proto / thrift type and value descriptors) ---- *)
+type sx = Atom of string | List of sx list
+let parse_sx (s : string) : sx =
+  let n = String.length s in
+  let pos = ref 0 in
+  let rec skip () = if !pos < n && s.[!pos] = ' ' then (incr pos; skip ()) in
+  let rec one () =
+    skip ();
+    if s.[!pos] = '(' then begin
+      incr pos;
+      let items = ref [] in
+      let rec loop () = skip (); if s.[!pos] = ')' then incr pos else (items := one () :: !items; loop ()) in
+      loop (); List (List.rev !items)
+    end else begin
+      let st = !pos in
+      while !pos < n && s.[!pos] <> ' ' && s.[!pos] <> '(' && s.[!pos] <> ')' do incr pos done;
+      Atom (String.sub s st (!pos - st))
+    end in
+  one ()
+
+let sub_from s i = String.sub s i (String.length s - i)
+let hexpart a = bytes_of_hex (let h = sub_from a 2 in if h = "" then "-" else h)
+
+let rec gty_of_sx (x : sx) : gty =
+  match x with
+  | Atom "bool" -> TBool | Atom "int" -> TInt | Atom "i32" -> TInt32 | Atom "i64" -> TInt64
+  | Atom "uint" -> TUint | Atom "u32" -> TUint32 | Atom "u64" -> TUint64 | Atom "f32" -> TFloat32 | Atom "f64" -> TFloat64
+  | Atom "str" -> TString | Atom "bytes" -> TBytes | Atom "raw" -> TRawMessage
+  | List [Atom "arr"; Atom n] -> TByteArray (nat_of_int (int_of_string n))
+  | List [Atom "ptr"; t] -> TPtr (gty_of_sx t)
+  | List [Atom "slice"; t] -> TSlice (gty_of_sx t)
+  | List [Atom "map"; k; v] -> TMap (gty_of_sx k, gty_of_sx v)
+  | List (Atom "struct" :: fs) ->
+      TStruct (List.map (fun f -> match f with
+        | List [Atom "f"; Atom "-"; t] -> GField (true, None, gty_of_sx t)
+        | List [Atom "f"; List [Atom "t"; Atom w; Atom n; Atom r; Atom z]; t] ->
+            GField (true, Some { tag_wire = z_of_int (int_of_string w); tag_number = z_of_int (int_of_string n);
+                                 tag_repeated = (r = "1"); tag_zigzag = (z = "1") }, gty_of_sx t)
+        | _ -> failwith "bad field") fs)
+  | _ -> failwith "bad type"
+
+let rec val_of_sx (t : gty) (x : sx) : val0 =
+  match t, x with
+  | TBool, Atom a -> VBool (a = "t")
+  | (TInt | TInt32 | TInt64 | TUint | TUint32 | TUint64 | TFloat32 | TFloat64), Atom a -> VInt (z_of_string a)
+  | TString, Atom a -> VStr (hexpart a)
+  | TBytes, Atom "nil" -> VBytes (false, [])
+  | TBytes, Atom a -> VBytes (true, hexpart a)
+  | TRawMessage, Atom "nil" -> VRaw (false, [])
+  | TRawMessage, Atom a -> VRaw (true, hexpart a)
+  | TByteArray _, Atom a -> VArr (hexpart a)
+  | TPtr _, Atom "nil" -> VPtr None
+  | TPtr t', List [Atom "p"; v] -> VPtr (Some (val_of_sx t' v))
+  | TStruct fs, List (Atom "s" :: vs) -> VStruct (List.map2 (fun f v -> match f with GField (_, _, ft) -> val_of_sx ft v) fs vs)
+  | TSlice t', List (Atom "l" :: vs) -> VSlice (List.map (val_of_sx t') vs)
+  | TMap (_, _), Atom "nilmap" -> VMap (false, [])
+  | TMap (kt, vt), List (Atom "m" :: es) ->
+      VMap (true, List.map (fun e -> match e with List [k; v] -> (val_of_sx kt k, val_of_sx vt v) | _ -> failwith "bad entry") es)
+  | _ -> failwith "bad value"
+
+let hexstr l = String.concat "" (List.map (fun z -> Printf.sprintf "%02x" (int_of_z z)) l)
+(* canonical text of a value: nil-vs-empty erased, map entries sorted (same as harness canon()) *)
+let rec canon (v : val0) : string =
+  match v with
+  | VBool b -> if b then "t" else "f"
+  | VInt z -> string_of_z z
+  | VStr s -> "s:" ^ hexstr s
+  | VBytes (_, s) -> "b:" ^ hexstr s
+  | VRaw (_, s) -> "r:" ^ hexstr s
+  | VArr s -> "a:" ^ hexstr s
+  | VPtr None -> "nil"
+  | VPtr (Some x) -> "(p " ^ canon x ^ ")"
+  | VStruct vs -> "(s" ^ String.concat "" (List.map (fun x -> " " ^ canon x) vs) ^ ")"
+  | VSlice vs -> "(l" ^ String.concat "" (List.map (fun x -> " " ^ canon x) vs) ^ ")"
+  | VMap (_, es) ->
+      let items = List.sort compare (List.map (fun (k, x) -> "(" ^ canon k ^ " " ^ canon x ^ ")") es) in
+      "(m " ^ String.concat " " items ^ ")"
+
+let split_bar s = String.split_on_char '|' s
+let errclass (e : proto_error option) = match e with
+  | None -> "nil" | Some Proto_ErrShortBuffer -> "short" | Some Proto_ErrUnexpectedEOF -> "eof" | Some _ -> "other"
+let rec repeat_z n = if n <= 0 then [] else Z0 :: repeat_z (n - 1)
+let big_fuel = nat_of_int 4000
+
+let proto_run fn argstr =
+  match fn, split_bar argstr with
+  | "p.enc", [ts; vs] ->
+      let t0 = gty_of_sx (parse_sx ts) in
+      let v0 = val_of_sx t0 (parse_sx vs) in
+      (* the harness always passes a POINTER to the value *)
+      let t = TPtr t0 and v = VPtr (Some v0) in
+      let n = size0 t v in
+      (match marshal t v with
+       | Ok (Some b) -> Printf.sprintf "size=%s marshal=%s" (string_of_z n) (hex_of_bytes b)
+       | Ok None -> Printf.sprintf "size=%s marshal=err" (string_of_z n)
+       | _ -> "PANIC")
+  | "p.rt", [ts; vs] ->
+      let t = gty_of_sx (parse_sx ts) in
+      let v = val_of_sx t (parse_sx vs) in
+      (match marshal (TPtr t) (VPtr (Some v)) with
+       | Ok (Some b) ->
+           (match unmarshal big_fuel t b (zero_val t) with
+            | Ok (Some r) -> canon r
+            | Ok None -> "err:unmarshal"
+            | Panic -> "PANIC"
+            | OutOfFuel -> "OUTOFFUEL")
+       | Ok None -> "err:marshal"
+       | _ -> "PANIC")
+  | "p.mto", [ts; vs; ls] ->
+      let t = gty_of_sx (parse_sx ts) in
+      let v = val_of_sx t (parse_sx vs) in
+      let l = int_of_string ls in
+      (match marshalTo (TPtr t) (repeat_z l) (VPtr (Some v)) with
+       | Ok ((n, e), b) ->
+           (match e with
+            | None ->
+                let n' = int_of_z n in
+                if n' < 0 || n' > l then Printf.sprintf "ok n=%d OUT-OF-RANGE" n'
+                else Printf.sprintf "ok n=%d %s" n' (hex_of_bytes (List.filteri (fun i _ -> i < n') b))
+            | _ -> errclass e)
+       | _ -> "PANIC")
+  | "p.dec", [ts; h] ->
+      let t = gty_of_sx (parse_sx ts) in
+      (match unmarshal big_fuel t (bytes_of_hex h) (zero_val t) with
+       | Ok (Some r) -> canon r
+       | Ok None -> "err"
+       | Panic -> "PANIC"
+       | OutOfFuel -> "OUTOFFUEL")
+  | _ -> "unknown-fn"
+
 let tf b = if b then "t" else "f"
 let both x y = if x = y then tf x else "MODEL-VARIANTS-DIFFER"
 
@@ -88,7 +218,10 @@ let () =
     while true do
       let line = input_line stdin in
       match split_on '\t' line with
-      | fn :: args :: _ -> print_endline (run fn (split_on ' ' args))
+      | fn :: args :: _ ->
+          let r = (try (if String.length fn > 2 && String.sub fn 0 2 = "p." then proto_run fn args else run fn (split_on ' ' args))
+                   with e -> "model-exception:" ^ Printexc.to_string e) in
+          print_endline r
       | _ -> print_endline "bad-line"
     done
   with End_of_file -> ()
